@@ -211,6 +211,8 @@ func dumpCsrStore(w *World, ctx sdk.Context) csrDump {
 //	payload: R~<contract>~<code 0/1>~<tokenId>  what the ABI decoder makes of the data under the Register layout
 //	         A~<contract>~<code 0/1>~<tokenId>  ... under the Assign layout
 //	         M  the decoder rejects the data;  -  not decoded (topic is neither Register nor Assign)
+//	         R, A and M carry the raw event data as a last field (~<hex>): the driver decodes it with the Lean model of the
+//	         contract ABI (Model/Abi.lean) and demands the same verdict and the same token id
 func logTok(w *World, ctx sdk.Context, l *ethtypes.Log) string {
 	em := w.Alias(accOf(l.Address))
 	if len(l.Topics) == 0 {
@@ -230,15 +232,15 @@ func logTok(w *World, ctx sdk.Context, l *ethtypes.Log) string {
 	case csrtypes.TurnstileEventRegister:
 		var e csrtypes.RegisterCSREvent
 		if err := csrkeeper.TurnstileContract.UnpackIntoInterface(&e, csrtypes.TurnstileEventRegister, l.Data); err != nil {
-			return em + "/reg/M"
+			return em + "/reg/M~" + hex.EncodeToString(l.Data)
 		}
-		return fmt.Sprintf("%s/reg/R~%s~%d~%s", em, w.Alias(accOf(e.SmartContract)), code(e.SmartContract), e.TokenId.String())
+		return fmt.Sprintf("%s/reg/R~%s~%d~%s~%s", em, w.Alias(accOf(e.SmartContract)), code(e.SmartContract), e.TokenId.String(), hex.EncodeToString(l.Data))
 	case csrtypes.TurnstileEventUpdate:
 		var e csrtypes.UpdateCSREvent
 		if err := csrkeeper.TurnstileContract.UnpackIntoInterface(&e, csrtypes.TurnstileEventUpdate, l.Data); err != nil {
-			return em + "/asg/M"
+			return em + "/asg/M~" + hex.EncodeToString(l.Data)
 		}
-		return fmt.Sprintf("%s/asg/A~%s~%d~%s", em, w.Alias(accOf(e.SmartContract)), code(e.SmartContract), e.TokenId.String())
+		return fmt.Sprintf("%s/asg/A~%s~%d~%s~%s", em, w.Alias(accOf(e.SmartContract)), code(e.SmartContract), e.TokenId.String(), hex.EncodeToString(l.Data))
 	}
 	return em + "/other/-"
 }
